@@ -255,29 +255,35 @@ func (d *Diff) String() string {
 	return avList(d.Deploy) + " " + avList(d.Replace) + " " + avList(d.Nonce) + " " + st + " " + listOrDash(d.Decl)
 }
 
-// ModelDiff is the diff as the state models see it: Sierra declarations are class declarations too,
-// and writes to the system contracts 0x1 / 0x2 (not modelled) are left out.
+// ModelDiff is the diff as the state models see it: Sierra declarations are class declarations too.
+// Writes to the system contracts 0x1 / 0x2 are part of the models (C03.Model: sys_new, purge by storage
+// root) and stay in.
 func (b *BlockSpec) ModelDiff() *Diff {
-	hasSys := false
-	for _, e := range b.Diff.Store {
-		hasSys = hasSys || IsSysAddr(e.A)
-	}
-	if len(b.DeclareV1) == 0 && !hasSys {
+	if len(b.DeclareV1) == 0 {
 		return &b.Diff
 	}
 	d := b.Diff.Clone()
-	if hasSys {
-		d.Store = d.Store[:0]
-		for _, e := range b.Diff.Store {
-			if !IsSysAddr(e.A) {
-				d.Store = append(d.Store, e)
-			}
-		}
-	}
 	for _, s := range b.DeclareV1 {
 		d.Decl = append(d.Decl, Hex(SierraHash(s.ID)))
 	}
 	return d
+}
+
+// CasmLine is the block as the CASM-metadata machine of C03.Model sees it:
+// "<v2 0|1> <declared h:c:v2hash,..> <migrated h:c,..>".
+func (b *BlockSpec) CasmLine() string {
+	v2 := "0"
+	if b.Version == "0.14.1" {
+		v2 = "1"
+	}
+	var decl, migr []string
+	for _, d := range b.DeclareV1 {
+		decl = append(decl, Hex(SierraHash(d.ID))+":"+d.Casm+":"+SierraCasmV2(d.ID))
+	}
+	for _, d := range b.Migrate {
+		migr = append(migr, Hex(SierraHash(d.ID))+":"+d.Casm)
+	}
+	return v2 + " " + listOrDash(decl) + " " + listOrDash(migr)
 }
 
 // String is the oracle encoding of an op: "R" or "S <diff>".
@@ -358,7 +364,8 @@ func (a *Abs) SlotAt(addr, slot string) string {
 }
 
 // Valid mirrors C03.Model.valid_diffb: distinct keys, deploy only absent contracts, replace only
-// contracts that existed before the block, nonces and writes only on deployed-or-being-deployed ones.
+// contracts that existed before the block, nonces and writes only on deployed-or-being-deployed ones;
+// the system contracts 0x1 / 0x2 are never deployed / replaced / given a nonce, and may always be written to.
 func (a *Abs) Valid(d *Diff) bool {
 	seen := map[string]bool{}
 	dup := func(k string) bool {
@@ -370,24 +377,24 @@ func (a *Abs) Valid(d *Diff) bool {
 	}
 	being := map[string]bool{}
 	for _, e := range d.Deploy {
-		if _, ok := a.Class[e.A]; ok || dup("d"+e.A) {
+		if _, ok := a.Class[e.A]; ok || dup("d"+e.A) || IsSysAddr(e.A) {
 			return false
 		}
 		being[e.A] = true
 	}
 	for _, e := range d.Replace {
-		if _, ok := a.Class[e.A]; !ok || dup("r"+e.A) {
+		if _, ok := a.Class[e.A]; !ok || dup("r"+e.A) || IsSysAddr(e.A) {
 			return false
 		}
 	}
 	dep := func(x string) bool { _, ok := a.Class[x]; return ok || being[x] }
 	for _, e := range d.Nonce {
-		if dup("n"+e.A) || !dep(e.A) {
+		if dup("n"+e.A) || !dep(e.A) || IsSysAddr(e.A) {
 			return false
 		}
 	}
 	for _, e := range d.Store {
-		if dup("s"+e.A+":"+e.K) || !dep(e.A) {
+		if dup("s"+e.A+":"+e.K) || !(dep(e.A) || IsSysAddr(e.A)) {
 			return false
 		}
 	}
@@ -429,7 +436,18 @@ func (a *Abs) Apply(n uint64, d *Diff) {
 	}
 }
 
-// Answers lists the truth tokens of the abstract state in universe order.
+// SysExists: a system contract exists in the abstract state iff one of its slots is non-zero
+// (C03.Model.sys_exists).
+func (a *Abs) SysExists(addr string) bool {
+	for k := range a.Slot {
+		if strings.HasPrefix(k, addr+":") {
+			return true
+		}
+	}
+	return false
+}
+
+// Answers lists the truth tokens of the abstract state in universe order (ordinary contracts only).
 func (a *Abs) Answers(u *Universe) []string {
 	var out []string
 	for _, q := range u.Queries() {
